@@ -270,6 +270,7 @@ type ClientOpts struct {
 	SplitLen          int
 	Recover           func(*client.Conn, *client.Line)
 	NewNick           func(string) string
+	Toggle            int // 1: state tracking is switched on and off again before the client is used
 }
 
 // Knobs varies the configuration fields a world's oracle does not depend on
@@ -292,6 +293,9 @@ func (g G) Knobs(o ClientOpts) ClientOpts {
 	}
 	if o.Caps == nil && g.Pct(20) {
 		o.Caps = []string{"multi-prefix", "sasl"}[:g.Range(1, 2)]
+	}
+	if o.Toggle == 0 && g.Pct(20) {
+		o.Toggle = 1
 	}
 	return o
 }
@@ -334,6 +338,12 @@ func NewClient(o ClientOpts) *client.Conn {
 		cfg.NewNick = o.NewNick
 	}
 	c := client.Client(cfg)
+	if o.Toggle == 1 {
+		// an application that tried tracking and switched it off again: the
+		// client is then exactly what it was before
+		c.EnableStateTracking()
+		c.DisableStateTracking()
+	}
 	if o.Track {
 		c.EnableStateTracking()
 	}
